@@ -1,6 +1,6 @@
 #!/usr/bin/env python3
 """Generates the complex instances of the specification: the same modules with Gaussian-rational scalars (CRat instead of Rat).
-   TPS -> CTPS, UTPMachine -> CUTPMachine, MC_UTPM -> MC_CUTPM.   usage: gen_complex.py [--check]"""
+   TPS -> CTPS, UTPMachine -> CUTPMachine, MC_UTPM -> MC_CUTPM, LinAlg -> CLinAlg, Factor -> CFactor, MC_Factor -> MC_CFactor.   usage: gen_complex.py [--check]"""
 import sys, os, re
 S = os.path.join(os.path.dirname(os.path.dirname(os.path.abspath(__file__))), "spec")
 def gen():
@@ -17,6 +17,13 @@ def gen():
     m = re.sub(r"-+ MODULE MC_UTPM -+", "------------------------------ MODULE MC_CUTPM ------------------------------", m)
     m = m.replace("EXTENDS UTPMachine, Json", "EXTENDS CUTPMachine, Json")
     out["MC_CUTPM.tla"] = "\\* GENERATED from MC_UTPM.tla by tools/gen_complex.py - do not edit\n" + m
+    for src, dst, a, b in (("LinAlg", "CLinAlg", "EXTENDS NDA, TPS, FiniteSetsExt", "EXTENDS NDA, CTPS, FiniteSetsExt"),
+                           ("Factor", "CFactor", "EXTENDS LinAlg", "EXTENDS CLinAlg"),
+                           ("MC_Factor", "MC_CFactor", "EXTENDS Factor, TLC, Json", "EXTENDS CFactor, TLC, Json")):
+        t = open(os.path.join(S, src + ".tla")).read()
+        assert a in t, (src, a)
+        t = re.sub(r"-+ MODULE %s -+" % src, "------------------------------- MODULE %s -------------------------------" % dst, t)
+        out[dst + ".tla"] = "\\* GENERATED from %s.tla by tools/gen_complex.py - do not edit\n" % src + t.replace(a, b)
     return out
 if __name__ == "__main__":
     o = gen()
